@@ -49,6 +49,36 @@ fn mutate(b: &mut Vec<u8>,rng: &mut Rng) -> String {
     }
 }
 
+/// the same IMD image with a cylinder map and/or a head map added to every track record that lacks it
+fn imd_with_maps(b: &[u8],cyl_map: bool,head_map: bool) -> Option<Vec<u8>> {
+    let mut p = b.iter().position(|x| *x==0x1a)? + 1;
+    let mut out = b[..p].to_vec();
+    while p < b.len() {
+        if p+5 > b.len() { return None; }
+        let (mode,cyl,head,nsec,code) = (b[p],b[p+1],b[p+2],b[p+3] as usize,b[p+4]);
+        if code>6 { return None; }
+        let size = 128usize << code;
+        p += 5;
+        let has_c = head & 0x80 != 0; let has_h = head & 0x40 != 0;
+        let mut flags = head;
+        if cyl_map { flags |= 0x80; }
+        if head_map { flags |= 0x40; }
+        out.extend_from_slice(&[mode,cyl,flags,nsec as u8,code]);
+        if p+nsec > b.len() { return None; }
+        out.extend_from_slice(&b[p..p+nsec]); p += nsec;
+        if has_c { if p+nsec > b.len() { return None; } out.extend_from_slice(&b[p..p+nsec]); p += nsec; } else if cyl_map { out.extend(std::iter::repeat(cyl).take(nsec)); }
+        if has_h { if p+nsec > b.len() { return None; } out.extend_from_slice(&b[p..p+nsec]); p += nsec; } else if head_map { out.extend(std::iter::repeat(head & 1).take(nsec)); }
+        for _ in 0..nsec {
+            if p >= b.len() { return None; }
+            let typ = b[p];
+            let len = match typ { 0 => 0, 1 | 3 | 5 | 7 => size, 2 | 4 | 6 | 8 => 1, _ => return None };
+            if p+1+len > b.len() { return None; }
+            out.extend_from_slice(&b[p..p+1+len]); p += 1+len;
+        }
+    }
+    Some(out)
+}
+
 fn consume_image(bytes: &Vec<u8>,hint: Option<&str>) -> String {
     match a2kit::create_fs_from_bytestream(bytes,hint) {
         Ok(mut d) => {
@@ -177,6 +207,32 @@ pub fn run(toks: &[&str]) -> String {
                     }
                 }
                 if bad.is_empty() { format!("swept variants={} mounted={}",n,mounted) } else { format!("PANICKED {}",bad.join("; ")) }
+            }).replacen("ok PANICKED","FAIL panic:",1)
+        },
+        "imdmaps" => {
+            // malform id imdmaps seed fs label : the optional cylinder and head maps of IMD track records (a2kit itself writes none or one);
+            // the rewritten image must still mount, and every truncation of it must mount or be refused
+            let fs = toks[4].to_string(); let label = toks[5].to_string();
+            let bytes = build_image(&fs,&label,&mut rng);
+            with_watchdog_secs(240,move || {
+                let mut bad: Vec<String> = Vec::new();
+                let mut n = 0;
+                for (cm,hm) in [(true,true),(true,false),(false,true)] {
+                    let v = match imd_with_maps(&bytes,cm,hm) { Some(v) => v, None => return "FAIL the IMD image written by a2kit could not be walked".to_string() };
+                    let whole = catch_unwind(AssertUnwindSafe(|| consume_image(&v,Some("imd")))).unwrap_or("panicked".to_string());
+                    if !whole.starts_with("mounted") { return format!("FAIL with cylinder map {} and head map {} on every track the image no longer mounts: {}",cm,hm,whole); }
+                    // every length up to the end of the third track, then a sample
+                    let mut cuts: Vec<usize> = (0..v.len().min(6000)).collect();
+                    for _ in 0..300 { cuts.push(rng.below(v.len())); }
+                    for cut in cuts {
+                        n += 1;
+                        let t = v[..cut].to_vec();
+                        if let Err(e) = catch_unwind(AssertUnwindSafe(|| consume_image(&t,Some("imd")))) { if bad.len()<3 {
+                            let msg = if let Some(s) = e.downcast_ref::<String>() { s.clone() } else if let Some(s) = e.downcast_ref::<&str>() { s.to_string() } else { "?".to_string() };
+                            bad.push(format!("maps cyl={} head={} truncated at {}: {}",cm,hm,cut,msg.replace('\n'," "))); } }
+                    }
+                }
+                if bad.is_empty() { format!("swept variants={}",n) } else { format!("PANICKED {}",bad.join("; ")) }
             }).replacen("ok PANICKED","FAIL panic:",1)
         },
         "unpack" => {
